@@ -60,6 +60,7 @@ MONITORS (real behaviour alone):
   c02:e2e-response-not-wellformed    a response is not one well-formed TTLV item (independent walker)
   c16:e2e-version-not-echoed         the response header does not carry the request's protocol version
   c08:e2e-results-incomplete         an engine answer with fewer / more items than the continuation option implies
+  c16:e2e-later-field-sent           a response whose header states version v carries a tag a later version introduced
   c08:e2e-too-large-without-limit    executed items answered only "Response Too Large" though the request states no limit
   c17:e2e-unauthenticated-reached-engine  the engine was called for a client whose identity cannot be established
   c11:e2e-connection-depends-on-predecessor   (sampled) the same connection served by a RESTARTED server on the store
@@ -645,6 +646,31 @@ def response_version(raw):
     return (int.from_bytes(maj[2], "big"), int.from_bytes(mnr[2], "big")), int.from_bytes(count[2], "big"), statuses
 
 
+TAG_BLOCKS = [(0x420125, 20), (0x4200F8, 14), (0x4200D4, 13), (0x4200B8, 12), (0x4200A2, 11)]
+
+
+def tag_version(tag):
+    for first, v in TAG_BLOCKS:
+        if first <= tag < 0x430000:
+            return v
+    return 10
+
+
+def all_tags(raw):
+    out = []
+
+    def walk(items):
+        for it in items:
+            out.append(it[0])
+            if it[1] == 1 and isinstance(it[2], list):
+                walk(it[2])
+    try:
+        walk(S.ttlv_walk(raw))
+    except Exception:
+        pass
+    return out
+
+
 def monitor_conn(step, o):
     """-> [(signature, what)]"""
     fails = []
@@ -671,6 +697,16 @@ def monitor_conn(step, o):
             continue
         if count != len(statuses):
             fails.append(("c02:e2e-response-not-wellformed", "frame %d: batch count %d, %d items" % (i, count, len(statuses))))
+        # "a message field introduced in a later KMIP version is never sent to a client speaking an earlier one": every tag
+        # of the response belongs to the tag table of the version its header states (the table grows by version:
+        # first tags of the blocks of 1.1 / 1.2 / 1.3 / 1.4 / 2.0 from the specification)
+        if ver in ((1, 0), (1, 1), (1, 2), (1, 3), (1, 4), (2, 0)):
+            hv = ver[0] * 10 + ver[1]
+            late = sorted(set(t for t in all_tags(raw) if tag_version(t) > hv))
+            if late:
+                fails.append(("c16:e2e-later-field-sent", "frame %d: the response states version %d.%d and carries the field(s) %s, "
+                              "introduced in %s" % (i, ver[0], ver[1], ["0x%06X" % t for t in late[:4]],
+                                                    sorted(set(tag_version(t) for t in late)))))
         who = established(step["cert"], step["tls"])
         cert_stage_ok = step["cert"] is not None and (not step["tls"] or step["cert"]["eku"] in ("client", "both"))
         want = tuple(verdict) if (verdict is not None and cert_stage_ok) else (1, 0)
